@@ -343,7 +343,7 @@ func (c *ClientConn) maybePrepareAndExecute(request Request, raw *frame.RawFrame
 	}
 
 	if msg, ok := frm.Body.Message.(*message.Unprepared); ok {
-		id := hex.EncodeToString(msg.Id)
+		id := c.preparedCacheKey(msg.Id)
 		if prepare, ok := c.preparedCache.Load(id); ok {
 			err = c.Send(&prepareRequest{
 				prepare:     prepare.PreparedFrame,
@@ -386,11 +386,22 @@ func (c *ClientConn) maybeCachePrepared(request Request, raw *frame.RawFrame) {
 				zap.Stringer("response", msg))
 			return
 		}
-		c.preparedCache.Store(hex.EncodeToString(msg.PreparedQueryId),
+		c.preparedCache.Store(c.preparedCacheKey(msg.PreparedQueryId),
 			&PreparedEntry{
 				request.Frame().(*frame.RawFrame), // Store frame so we can re-prepare
 			})
 	}
+}
+
+// preparedCacheKey is the key a statement's `PREPARE` frame is cached under. The cached frame is the frame as it was sent
+// by a client, so it can only be replayed on connections using the compression it was sent with. Connections that
+// use compression keep their frames apart from the ones that don't (and from each other).
+func (c *ClientConn) preparedCacheKey(id []byte) string {
+	key := hex.EncodeToString(id)
+	if len(c.compression) > 0 {
+		key = strings.ToLower(c.compression) + ":" + key
+	}
+	return key
 }
 
 func (c *ClientConn) Closing(err error) {
